@@ -118,6 +118,20 @@ var kinds = []kind{
 	{Name: "fs-download-close", Cmd: agent.COMMAND_FS, Build: one(func(e *demonref.Enc, _ string, n uint32) {
 		e.Int32(agent.DEMON_COMMAND_FS_DOWNLOAD).Int32(2).Int32(0x7000 + n%4).Int32(0)
 	})},
+	// Downloads the teamserver does not track (file ids 0x7800.., never used by the kinds above):
+	// the open callback names a file that leaves the agent's loot folder, which DownloadAdd
+	// refuses (console error, nothing opened, nothing written) ...
+	{Name: "fs-download-open-refused", Cmd: agent.COMMAND_FS, Build: one(func(e *demonref.Enc, text string, n uint32) {
+		e.Int32(agent.DEMON_COMMAND_FS_DOWNLOAD).Int32(0).Int32(0x7800 + n%4).Int64(uint64(n)).WString("C:\\..\\..\\..\\outside\\" + text + ".bin")
+	})},
+	// ... and the close callback (Download.c DownloadPush / DownloadRemove: reason 0 finished,
+	// 1 removed) for a file id that is not in the agent's open-download list: open refused,
+	// close without open, wrong file id.  It is the last package the Demon sends under the
+	// download task's request id, and the reference teamserver ends the request on every
+	// readable close callback whether or not it tracks the file id: Final.
+	{Name: "fs-download-close-unopened", Cmd: agent.COMMAND_FS, Final: true, Build: one(func(e *demonref.Enc, _ string, n uint32) {
+		e.Int32(agent.DEMON_COMMAND_FS_DOWNLOAD).Int32(2).Int32(0x7800 + n%4).Int32(n / 4 % 2)
+	})},
 	// CommandProcList: one package
 	{Name: "proc-list", Cmd: agent.COMMAND_PROC_LIST, Final: true, Build: one(func(e *demonref.Enc, text string, n uint32) {
 		e.Int32(n % 2)
